@@ -67,7 +67,9 @@ func runC02(p *core.Prog, r *core.Report, tier string) {
 	if f := r.Need(p, tsm1, "Engine.Open"); f != nil {
 		core.RuleOrder(r, f, "open-order", []string{"Engine.cleanup", "FileStore.Open", "Engine.reloadCache"},
 			[]core.Matcher{call("tsdb/engine/tsm1.Engine.cleanup"), call("tsdb/engine/tsm1.FileStore.Open"), call("tsdb/engine/tsm1.Engine.reloadCache")})
-		core.RuleErrorsUsed(r, f, "open-errors", "cleanup/Open/reloadCache", call("tsdb/engine/tsm1.Engine.cleanup", "tsdb/engine/tsm1.FileStore.Open", "tsdb/engine/tsm1.Engine.reloadCache", "tsdb/engine/tsm1.WAL.Open"), false, 4)
+		// (same-package helpers spliced in: wrapping e.g. the WAL open in a helper keeps the count)
+		openSteps := call("tsdb/engine/tsm1.Engine.cleanup", "tsdb/engine/tsm1.FileStore.Open", "tsdb/engine/tsm1.Engine.reloadCache", "tsdb/engine/tsm1.WAL.Open")
+		core.RuleErrorsUsedInl(r, f.Inline(openSteps), "open-errors", "cleanup/Open/reloadCache", openSteps, false, 4)
 	}
 	if f := r.Need(p, tsm1, "Engine.reloadCache"); f != nil {
 		core.RuleMustPass(r, f, "open-order", "CacheLoader.Load", call("tsdb/engine/tsm1.CacheLoader.Load"), false)
